@@ -497,3 +497,61 @@ package types
 //@   prop C20
 //@   modifies sfoid
 //@   ensures @accepts-only-exact-length result == nil ==> len(b) == 64
+
+// ------------------------------------------------------------ encoding.go: Encoder kernel (C11: the primitives' byte layout)
+// The wire engine models these methods by items (u8, u64, raw ...); here their real bodies are
+// verified for what an item means on the wire: a uint64 is written as its 8 little-endian
+// bytes, a bool as one byte 0/1, a byte slice as its length (uint64) followed by the bytes, a
+// time as its Unix seconds; the buffer index stays within the buffer.
+
+//@ spec encWF(e *Encoder) bool = 0 <= e.n && e.n <= 1024
+
+//@ func (*Encoder).Flush
+//@   prop C11
+//@   requires encWF(e)
+//@   modifies e.n, e.err
+//@   ensures @buffer-index encWF(e)
+
+//@ func (*Encoder).Write
+//@   prop C11
+//@   requires encWF(e)
+//@   modifies e.n, e.err, e.buf
+//@   invariant loop#1 @buffer-index encWF(e)
+//@   ensures @buffer-index encWF(e)
+//@   ensures @reports-all-bytes result0 == len(p)
+
+//@ func (*Encoder).WriteBool
+//@   prop C11
+//@   requires encWF(e)
+//@   modifies e.n, e.err, e.buf
+//@   at call:Encoder.Write#1 assert len($arg1) == 1 && $arg1[0] == (b ? 1 : 0)
+//@   ensures @buffer-index encWF(e)
+
+//@ func (*Encoder).WriteUint8
+//@   prop C11
+//@   requires encWF(e)
+//@   modifies e.n, e.err, e.buf
+//@   at call:Encoder.Write#1 assert len($arg1) == 1 && $arg1[0] == u
+//@   ensures @buffer-index encWF(e)
+
+//@ func (*Encoder).WriteUint64
+//@   prop C11
+//@   requires encWF(e)
+//@   modifies e.n, e.err, e.buf
+//@   at call:Encoder.Write#1 assert len($arg1) == 8 && $arg1[0] + 2^8 * $arg1[1] + 2^16 * $arg1[2] + 2^24 * $arg1[3] + 2^32 * $arg1[4] + 2^40 * $arg1[5] + 2^48 * $arg1[6] + 2^56 * $arg1[7] == u
+//@   ensures @buffer-index encWF(e)
+
+//@ func (*Encoder).WriteTime
+//@   prop C11
+//@   requires encWF(e)
+//@   modifies e.n, e.err, e.buf
+//@   at call:Encoder.WriteUint64#1 assert $arg1 == t.Unix() % 2^64
+//@   ensures @buffer-index encWF(e)
+
+//@ func (*Encoder).WriteBytes
+//@   prop C11
+//@   requires encWF(e)
+//@   modifies e.n, e.err, e.buf
+//@   at call:Encoder.WriteUint64#1 assert $arg1 == len(b)
+//@   at call:Encoder.Write#1 assert len($arg1) == len(b) && forall i in 0..len(b) :: $arg1[i] == b[i]
+//@   ensures @buffer-index encWF(e)
